@@ -451,21 +451,29 @@ var c17DecPositions = []c17DecPos{
 		var v struct {
 			A                              int `json:"a"`
 			AA                             int `json:"aa"`
-			Q                              int `json:"A"`
 			P1, P2, P3, P4, P5, P6, P7, P8 int
 		}
 		err := c17Dec(std, stream, []byte(`{`+lit+`:5}`), &v)
-		return fmt.Sprintf("%d%d%d", v.A, v.AA, v.Q), err
+		return fmt.Sprintf("%d%d", v.A, v.AA), err
+	}},
+	// all-ASCII names without case twins: the key matchers specialised for up to 8 names
+	{"struct key match, up to 8 plain names", func(lit string, stream, std bool) (string, error) {
+		var v struct {
+			A  int `json:"a"`
+			AA int `json:"aa"`
+			B  int `json:"b"`
+		}
+		err := c17Dec(std, stream, []byte(`{`+lit+`:5}`), &v)
+		return fmt.Sprintf("%d%d%d", v.A, v.AA, v.B), err
 	}},
 	{"struct key match, more than 16 names", func(lit string, stream, std bool) (string, error) {
 		var v struct {
 			A                                                                int `json:"a"`
 			AA                                                               int `json:"aa"`
-			Q                                                                int `json:"A"`
 			P1, P2, P3, P4, P5, P6, P7, P8, P9, P10, P11, P12, P13, P14, P15 int
 		}
 		err := c17Dec(std, stream, []byte(`{`+lit+`:5}`), &v)
-		return fmt.Sprintf("%d%d%d", v.A, v.AA, v.Q), err
+		return fmt.Sprintf("%d%d", v.A, v.AA), err
 	}},
 }
 
